@@ -26,6 +26,7 @@ type Case struct {
 	Role      string `json:"role"`    // endpoint under observation: "C" or "S"
 	Variant   string `json:"variant"` // v12, v12-nohv, v12-psk, v12-clientauth, v12-resumed, v13, v13-nohv
 	IvlMs     int    `json:"ivl"`
+	IvlUs     int    `json:"ivlus,omitempty"` // added to IvlMs: intervals that are not whole milliseconds (800us, 2.5ms)
 	NoBackoff bool   `json:"nobackoff,omitempty"`
 	// Cut: number of peer flights delivered normally; peer flight number Cut is withheld.
 	Cut int `json:"cut"`
@@ -38,8 +39,10 @@ type Case struct {
 	// StaleMs: instants at which the peer's last delivered flight is replayed to X.
 	StaleMs []int `json:"stale,omitempty"`
 	// JunkMs: instants at which garbage is delivered to X.
-	JunkMs    []int `json:"junk,omitempty"`
-	HorizonMs int   `json:"horizon"`
+	JunkMs []int `json:"junk,omitempty"`
+	// EmptyStale: every stale replay is followed by a record holding a zero-length fragment of the peer's message 0
+	EmptyStale bool `json:"emptystale,omitempty"`
+	HorizonMs  int  `json:"horizon"`
 }
 
 func epsFor(c *Case) (cl, sv scen.EP, resumed bool) {
@@ -74,6 +77,7 @@ func epsFor(c *Case) (cl, sv scen.EP, resumed bool) {
 		cl.MTU, sv.MTU = 300, 300
 	}
 	cl.IntervalMs, sv.IntervalMs = c.IvlMs, c.IvlMs
+	cl.IntervalUs, sv.IntervalUs = c.IvlUs, c.IvlUs
 	cl.NoBackoff, sv.NoBackoff = c.NoBackoff, c.NoBackoff
 
 	return cl, sv, resumed
@@ -312,13 +316,26 @@ func run(c Case, r *pbt.R) {
 				for _, d := range lastDelivered {
 					p.Net.Inject(peer, x, d)
 				}
+				if len(lastDelivered) > 0 && c.EmptyStale {
+					// one more stale record: a zero-length fragment of the peer's message 0 (consumed with the first
+					// delivered flight), declared length 100: no data, old message number
+					p.Net.Inject(peer, x, []byte{0x16, 0xfe, 0xfd, 0, 0, 0, 0, 0, 0, 0x7e, byte(len(receipts)), 0, 12, 2, 0, 0, 100, 0, 0, 0, 0, 0, 0, 0, 0})
+				}
 				if len(lastDelivered) > 0 {
 					receipts = append(receipts, rcv{now, "stale", len(lastDelivered)})
 				}
 			case "junk":
 				p.Net.Inject(peer, x, []byte{0x16, 0xfe, 0xfd, 0, 0, 0, 0, 0, 0, 0, 9, 0, 40, 1, 2, 3})
 				p.Net.Inject(peer, x, []byte{0xff, 0xee, 0xdd, 0xcc})
-				receipts = append(receipts, rcv{now, "junk", 2})
+				k := byte(len(receipts))
+				nj := 2
+				if !strings.HasPrefix(c.Variant, "v13") {
+					// a plaintext ACK record with an empty list: not a retransmission of anything, in DTLS 1.2
+					// not even a defined record type (in DTLS 1.3 an empty ACK legitimately asks for the flight)
+					p.Net.Inject(peer, x, []byte{26, 0xfe, 0xfd, 0, 0, 0, 0, 0, 0, 0x7f, k, 0, 2, 0, 0})
+					nj++
+				}
+				receipts = append(receipts, rcv{now, "junk", nj})
 			}
 			scen.Settle()
 		}
@@ -380,7 +397,7 @@ func run(c Case, r *pbt.R) {
 				lastRecvAt = rc.at
 			}
 		}
-		ivl := ms(c.IvlMs)
+		ivl := ms(c.IvlMs) + time.Duration(c.IvlUs)*time.Microsecond
 		is13 := strings.HasPrefix(c.Variant, "v13")
 		sigBase := fmt.Sprintf("C17|%s|%s", map[bool]string{true: "dtls13", false: "dtls12"}[is13], map[string]string{"C": "client", "S": "server"}[x])
 		// ---- final period without NEW data: from the last receipt of new peer data to the horizon
@@ -463,6 +480,9 @@ func run(c Case, r *pbt.R) {
 			for _, g := range tail[1:] {
 				if staleAt[g.at] && completed && !is13 {
 					continue // 1.2: the final flight re-sent in response to a peer retransmission
+				}
+				if staleAt[g.at] && c.EmptyStale && t0.class == "cookie-request" {
+					continue // a stateless server answers what it takes for a repeated ClientHello: per datagram, not on a timer
 				}
 				got = append(got, g.at)
 			}
@@ -572,6 +592,12 @@ func gen(t *rapid.T) Case {
 	c.NoBackoff = rapid.IntRange(0, 3).Draw(t, "nobackoff") == 0
 	// horizon: enough for the whole ladder to 8 rungs past the cap (bounded number of emissions)
 	ivl := c.IvlMs
+	if rapid.IntRange(0, 5).Draw(t, "subms") == 0 {
+		// a legal interval that is not a whole number of milliseconds: 0.8ms, 2.5ms, 10.5ms
+		c.IvlMs = rapid.SampledFrom([]int{0, 2, 10}).Draw(t, "ivlms")
+		c.IvlUs = rapid.SampledFrom([]int{500, 800}).Draw(t, "ivlus")
+		ivl = c.IvlMs + 1
+	}
 	h, iv := 0, ivl
 	for i := 0; i < 14; i++ {
 		h += iv
@@ -595,6 +621,7 @@ func gen(t *rapid.T) Case {
 		for i := 0; i < n; i++ {
 			c.StaleMs = append(c.StaleMs, rapid.IntRange(1, max(2, c.HorizonMs/2)).Draw(t, "staleat"))
 		}
+		c.EmptyStale = rapid.Bool().Draw(t, "emptystale")
 	case 3: // junk
 		n := rapid.IntRange(1, 12).Draw(t, "njunk")
 		for i := 0; i < n; i++ {
